@@ -159,7 +159,9 @@ def cells_equal(a, b):
 
 def sort_rows(rows):
     def key(r):
-        return [(0, '') if c is None else (1, '%030.6f' % float(c[1])) if c[0] in ('n', 'i') else (2, str(c[1])) for c in r]
+        # numbers are ordered by value (12 significant digits: the two sides may differ in the last bits), not by a
+        # fixed-point rendering: 0 and 1e-7 must not tie
+        return [(0, 0.0, '') if c is None else (1, float('%.12g' % float(c[1])), '') if c[0] in ('n', 'i') else (2, 0.0, str(c[1])) for c in r]
     return sorted(rows, key=key)
 
 
